@@ -411,6 +411,7 @@ class Sums:
     def __init__(self):
         self.entries = []     # (body term over self.j, func, sort)
         self.pentries = []    # parametric: (body over self.j and sum!p, func, sort, True)
+        self.zero_lemma_uses = 0
         self.j = z3.Int('sum!j')
 
     def prefix(self, g, ctx=None):
@@ -421,6 +422,19 @@ class Sums:
         if z3.is_bool(body):
             body = to_int(body)
         body = z3.simplify(body)
+        zero = z3.IntVal(0) if z3.is_int(body) else z3.RealVal(0)
+        if body.eq(zero):
+            return lambda h: zero
+        if ctx:
+            # lemma "pointwise-zero summand => zero sum" (generic induction, lemmas/sums.py): if the path
+            # condition makes the summand vanish identically the sum is the constant 0
+            s = z3.Solver()
+            s.set('timeout', 400)
+            s.add(*[c for c in ctx if not z3.is_quantifier(c)])
+            s.add(body != zero)
+            if s.check() == z3.unsat:
+                self.zero_lemma_uses += 1
+                return lambda h: zero
         for (b, f, srt) in self.entries:
             if srt == body.sort() and b.eq(body):
                 return f
@@ -532,6 +546,14 @@ class Arr:
         return self.n
 
 
+_EMPTY_ELEM = z3.Real('empty!elem')
+
+
+def empty_arr():
+    """array of length 0: any (guarded) read yields an unconstrained element"""
+    return Arr(0, lambda i: _EMPTY_ELEM)
+
+
 def const_arr(n, v):
     return Arr(n, lambda i: v)
 
@@ -539,7 +561,7 @@ def const_arr(n, v):
 def arr_from_list(xs):
     xs = list(xs)
     if not xs:
-        return Arr(0, lambda i: _raise('index into empty array'))
+        return empty_arr()
 
     def f(i):
         ci = concrete_int(i)
@@ -716,12 +738,12 @@ def ew(op, *args):
     def cell(a):
         if isinstance(a, Mat):
             if concrete_int(a.nr) == 1 and concrete_int(m.nr) != 1:
-                return lambda r, c: a.f(0, c)
+                return lambda r, c, _f_a=a.f: _f_a(0, c)
             if concrete_int(a.nc) == 1 and concrete_int(m.nc) != 1:
-                return lambda r, c: a.f(r, 0)
+                return lambda r, c, _f_a=a.f: _f_a(r, 0)
             return a.f
         if isinstance(a, Arr):
-            return lambda r, c: a.f(c)
+            return lambda r, c, _f_a=a.f: _f_a(c)
         return lambda r, c: a
     # result shape: broadcast (prefer the non-1 dims)
     nr, nc = m.nr, m.nc
@@ -887,7 +909,7 @@ def reset_compress():
 def compress(base, mask):
     cnt, sel, rank = COMP.get(mask)
     if isinstance(base, Arr):
-        return Arr(cnt, lambda p: base.f(sel(lift(p))), comp=(base, mask))
+        return Arr(cnt, lambda p, _f_base=base.f: _f_base(sel(lift(p))), comp=(base, mask))
     raise Unsupported('compress of non-array')
 
 
@@ -897,18 +919,18 @@ def arr_sum(a, ctx=None):
     cn = concrete_int(a.n)
     if a.comp is not None:
         base, mask = a.comp
-        P = SUMS.prefix(lambda j: ite(to_bool(mask.f(j)), _numify(base.f(j)), _zero_like(base.f(j))), ctx)
+        P = SUMS.prefix(lambda j, _f_base=base.f, _f_mask=mask.f: ite(to_bool(_f_mask(j)), _numify(_f_base(j)), _zero_like(_f_base(j))), ctx)
         return P(lift(base.n))
     if a.view is not None:
         base, off = a.view
-        P = SUMS.prefix(lambda j: _numify(base.f(j)), ctx)
+        P = SUMS.prefix(lambda j, _f_base=base.f: _numify(_f_base(j)), ctx)
         return P(lift(off) + lift(a.n)) - P(lift(off))
     if cn is not None and cn <= 6:
         tot = 0
         for k in range(cn):
             tot = binop('Add', tot, _numify(a.f(k)))
         return tot
-    P = SUMS.prefix(lambda j: _numify(a.f(j)), ctx)
+    P = SUMS.prefix(lambda j, _f_a=a.f: _numify(_f_a(j)), ctx)
     return P(lift(a.n))
 
 
@@ -928,9 +950,9 @@ def _zero_like(v):
 def arr_cumsum(a, ctx=None):
     if a.view is not None:
         base, off = a.view
-        P = SUMS.prefix(lambda j: _numify(base.f(j)), ctx)
+        P = SUMS.prefix(lambda j, _f_base=base.f: _numify(_f_base(j)), ctx)
         return Arr(a.n, lambda r: P(lift(off) + lift(r) + 1) - P(lift(off)))
-    P = SUMS.prefix(lambda j: _numify(a.f(j)), ctx)
+    P = SUMS.prefix(lambda j, _f_a=a.f: _numify(_f_a(j)), ctx)
     return Arr(a.n, lambda r: P(lift(r) + 1))
 
 
@@ -955,7 +977,7 @@ def arr_slice(a, lo, hi):
     base, off = (a, lo)
     if a.view is not None:
         base, off = a.view[0], binop('Add', a.view[1], lo)
-    return Arr(ln, lambda i: a.f(binop('Add', lo, i)), view=(base, off), kind=a.kind)
+    return Arr(ln, lambda i, _f_a=a.f: _f_a(binop('Add', lo, i)), view=(base, off), kind=a.kind)
 
 
 def arr_concat(parts):
@@ -974,24 +996,25 @@ def arr_concat(parts):
             ps.append(Arr(1, lambda i, p=p: p))
     ps = [p for p in ps if concrete_int(p.n) != 0]
     if not ps:
-        return Arr(0, lambda i: _raise('index into empty array'))
+        return empty_arr()
     if len(ps) == 1:
         return ps[0].copy()
     offs = [0]
     for p in ps:
         offs.append(binop('Add', offs[-1], p.n))
+    fs = [p.f for p in ps]      # snapshot: later in-place updates of the parts must not show through
 
     def f(i):
         ci = concrete_int(i)
-        out = ps[-1].f(binop('Sub', i, offs[-2]))
+        out = fs[-1](binop('Sub', i, offs[-2]))
         for k in range(len(ps) - 2, -1, -1):
             bound = offs[k + 1]
             cb = concrete_int(bound)
             if ci is not None and cb is not None:
                 if ci < cb:
-                    out = ps[k].f(binop('Sub', i, offs[k]))
+                    out = fs[k](binop('Sub', i, offs[k]))
                 continue
-            out = ite(cmpop('Lt', i, bound), ps[k].f(binop('Sub', i, offs[k])), out)
+            out = ite(cmpop('Lt', i, bound), fs[k](binop('Sub', i, offs[k])), out)
         return out
     tot = offs[-1]
     tot = simp(tot) if is_z3(tot) else tot
@@ -1005,7 +1028,7 @@ def mat_vstack(parts):
         if isinstance(p, Havoc):
             return p
         if isinstance(p, Arr):
-            ps.append(Mat(1, p.n, lambda r, c, p=p: p.f(c), sparse=False))
+            ps.append(Mat(1, p.n, lambda r, c, p=p, _f_p=p.f: _f_p(c), sparse=False))
         elif isinstance(p, Mat):
             ps.append(p)
         else:
@@ -1017,16 +1040,18 @@ def mat_vstack(parts):
     for p in ps:
         offs.append(binop('Add', offs[-1], p.nr))
 
+    fs = [p.f for p in ps]
+
     def f(r, c):
-        out = ps[-1].f(binop('Sub', r, offs[-2]), c)
+        out = fs[-1](binop('Sub', r, offs[-2]), c)
         cr = concrete_int(r)
         for k in range(len(ps) - 2, -1, -1):
             cb = concrete_int(offs[k + 1])
             if cr is not None and cb is not None:
                 if cr < cb:
-                    out = ps[k].f(binop('Sub', r, offs[k]), c)
+                    out = fs[k](binop('Sub', r, offs[k]), c)
                 continue
-            out = ite(cmpop('Lt', r, offs[k + 1]), ps[k].f(binop('Sub', r, offs[k]), c), out)
+            out = ite(cmpop('Lt', r, offs[k + 1]), fs[k](binop('Sub', r, offs[k]), c), out)
         return out
     tot = offs[-1]
     tot = simp(tot) if is_z3(tot) else tot
@@ -1052,16 +1077,18 @@ def mat_hstack(parts):
     for p in ps:
         offs.append(binop('Add', offs[-1], p.nc))
 
+    fs = [p.f for p in ps]
+
     def f(r, c):
-        out = ps[-1].f(r, binop('Sub', c, offs[-2]))
+        out = fs[-1](r, binop('Sub', c, offs[-2]))
         cc = concrete_int(c)
         for k in range(len(ps) - 2, -1, -1):
             cb = concrete_int(offs[k + 1])
             if cc is not None and cb is not None:
                 if cc < cb:
-                    out = ps[k].f(r, binop('Sub', c, offs[k]))
+                    out = fs[k](r, binop('Sub', c, offs[k]))
                 continue
-            out = ite(cmpop('Lt', c, offs[k + 1]), ps[k].f(r, binop('Sub', c, offs[k])), out)
+            out = ite(cmpop('Lt', c, offs[k + 1]), fs[k](r, binop('Sub', c, offs[k])), out)
         return out
     tot = offs[-1]
     tot = simp(tot) if is_z3(tot) else tot
@@ -1076,6 +1103,6 @@ def flatten_c(m):
         return m.copy()
     nr = concrete_int(m.nr)
     if nr is not None and nr <= 4:
-        rows = [Arr(m.nc, lambda c, r=r: m.f(r, c)) for r in range(nr)]
+        rows = [Arr(m.nc, lambda c, r=r, _f_m=m.f: _f_m(r, c)) for r in range(nr)]
         return arr_concat(rows)
-    return Arr(binop('Mult', m.nr, m.nc), lambda i: m.f(s_floordiv(i, m.nc), s_mod(i, m.nc)))
+    return Arr(binop('Mult', m.nr, m.nc), lambda i, _f_m=m.f: _f_m(s_floordiv(i, m.nc), s_mod(i, m.nc)))
